@@ -23,11 +23,12 @@ RULE = ('1..10 logical records (payload 0..3000 bytes, one in ten files with a 4
         'records with capacity targets 20..16384 (small values over-weighted), any conformant storage unit label.  '
         'Non-trivial: at least one record spans >= 2 segments.  Distinct = distinct (label, records, layout).')
 ASSUMPTIONS = ['checksum values are opaque (the reader does not verify them)',
+               'an encryption packet (segment attribute bit 5) is not among the things the statement lists as removed: the bytes of the packet are part of the delivered body of the encrypted record',
                'pad bytes of an encrypted segment cannot be identified (standard, and the reader\'s own rule): the expected payload of an encrypted record is the raw segment bodies including pad bytes',
                'a file consisting of the label only is excluded (documented as unsupported)']
 SHARDS = {'quick': 4, 'thorough': 16}
 REQUIRED_CLASSES = {'record-spans>=2-visible-records': 1, 'segment-with-padding': 1, 'segment-with-checksum': 1,
-                    'segment-with-trailing-length': 1, 'zero-length-payload': 1, 'encrypted-record': 1, 'encrypted-segment-with-padding': 1, 'visible-record-of-20-bytes': 1,
+                    'segment-with-trailing-length': 1, 'zero-length-payload': 1, 'encrypted-record': 1, 'encrypted-segment-with-padding': 1, 'encrypted-segment-with-encryption-packet': 1, 'visible-record-of-20-bytes': 1,
                     'visible-record-of-16384-bytes': 1,
                     'sul-number-with-0-digit': 1, 'several-records-in-one-visible-record': 1,
                     'reread:second-pass': 1, 'reread:pass-after-other-operation': 1}
@@ -51,6 +52,7 @@ def classify(cc, case, model):
     cc.cls('zero-length-payload', any(len(r['payload']) == 0 for r in recs))
     cc.cls('encrypted-record', any(r['encrypted'] for r in recs))
     cc.cls('encrypted-segment-with-padding', any(r['encrypted'] and any(s['pad'] for s in l) for r, l in zip(recs, lays)))
+    cc.cls('encrypted-segment-with-encryption-packet', any(s.get('enc_packet') for l in lays for s in l))
     cc.cls('visible-record-of-20-bytes', any(v[1] == 20 for m in model['records'] for v in m['vrs']))
     cc.cls('visible-record-of-16384-bytes', model['max_vr'] == 16384)
     cc.cls('payload>16KiB', any(len(r['payload']) > 16384 for r in recs))
